@@ -71,6 +71,41 @@ CHECKS["C09"] = dict(
     ref="DESIGN.md section 4, C09",
 )
 
+CHECKS["C10"] = dict(
+    category="exploration",
+    technique="bounded-exhaustive enumeration of ordered overload sets x argument lists against a reference resolution rule (interface and end to end)",
+    text="Every ordered set of 1-3 distinct signatures with <=2 parameters over a 6-type universe (75895 ordered sets) x all 43 "
+         "argument lists is resolved through the real Scope (3.3 M calls); the same over a smaller universe is compiled end to end and "
+         "the chosen overload observed statically and dynamically. Complete within the bound; order independence follows because every order is enumerated.",
+    note="Trusted: the 15-line reference rule (viable, cost, unique minimum). Overload sets larger than 3 or arities above 2 are outside the bound.",
+    ref="DESIGN.md section 4, C10",
+)
+CHECKS["C11"] = dict(
+    category="exploration",
+    technique="bounded-exhaustive enumeration of statement trees with break/continue at every leaf position; lexical oracle plus reference interpreter for accepted trees",
+    text="All statement skeletons up to the node bound with one or two break/continue leaves anywhere, braced and unbraced, and "
+         "two-function variants; the decision is compared with a lexical oracle and accepted programs are run against the reference.",
+    note="Trusted: the lexical oracle on the generator's skeleton and refsem.",
+    ref="DESIGN.md section 4, C11",
+)
+CHECKS["C12"] = dict(
+    category="exploration",
+    technique="bounded-exhaustive enumeration of scope skeletons x declaration positions x names; scope-stack oracle plus reference interpreter",
+    text="Every scope skeleton up to the bound, one additional declaration at every statement position, its name ranging over every "
+         "name of the program plus field/foreign/fresh names: decision vs scope-stack oracle; accepted programs run against the "
+         "lexically binding reference interpreter with distinct values per declaration.",
+    note="Trusted: the scope-stack simulation in the generator and refsem.",
+    ref="DESIGN.md section 4, C12",
+)
+CHECKS["C13"] = dict(
+    category="exploration",
+    technique="complete grids (array shapes x index constants x chain positions; index expression types; all swizzle masks) against a decision rule",
+    text="Finite grids enumerated completely: every constant from below zero to beyond the size at every dimension of every shape, "
+         "every index expression type at every chain position, every mask string up to the length bound on every vector size.",
+    note="Trusted: the three-line decision rule. Array sizes above 3 and masks longer than 4 are outside the grid.",
+    ref="DESIGN.md section 4, C13",
+)
+
 PENDING = {}
 
 
